@@ -3,7 +3,7 @@ import json
 import re
 
 from .lib import (PLUMBING, callee_allow, callers, closure_args_of_call, lit_strs, operand_local)
-from .lib_c10 import (closure_site, generic_route_handler, impl_fns, upvar_fields, upvar_origin, upvar_params)
+from .lib_c10 import (closure_site, impl_fns, ok_sources, upvar_fields, upvar_origin, upvar_params)
 
 LEVEL = "other"
 TECHNIQUE = ("static analysis: value-preserving CHAIN slices from every decoder input / extractor payload back to the request, sibling agreement of the "
@@ -50,15 +50,19 @@ def _consts(sl):
     return [a for a in sl.atoms if a[0] in ("lit", "const") and a[1] not in ('{"zst": true}', "null")]
 
 
-def _chain(ctx, R, key, fn, operand, allow, site, origin=None, must_call=None, consts_ok=False, what=""):
+def _chain(ctx, R, key, fn, operand, allow, site, origin=None, must_call=None, consts_ok=False, what="", pre=None):
     """One CHAIN instance: slice of `operand` in fn has only allow-listed callees, no binop/unop,
-    (optionally) no constants, reaches `must_call`, and `origin(slice)` holds."""
+    (optionally) no constants, reaches `must_call`, and `origin(slice)` holds.  `pre` = (ok, text): a
+    condition established by the caller that belongs to the same instance."""
     sl = fn.slice(operand)
     bad = callee_allow(sl, allow)
     ops = sorted(set(a[1] for a in sl.atoms if a[0] in ("binop", "unop")))
     cs = [] if consts_ok else _consts(sl)
     ok = not bad and not ops and not cs
     detail = "%s: off-list callees %s; arithmetic/logic %s; constants %d" % (what or key, sorted(set(b[0] for b in bad)), ops, len(cs))
+    if pre is not None:
+        ok = ok and pre[0]
+        detail = pre[1] + "; " + detail
     if must_call:
         has = sl.has_call(must_call)
         ok = ok and has
@@ -69,6 +73,43 @@ def _chain(ctx, R, key, fn, operand, allow, site, origin=None, must_call=None, c
         detail += "; origin %s" % od
     ctx.check(R, key, ok, detail, site)
     return sl
+
+
+def _ok_chain(ctx, R, key, fn, allow, site, **kw):
+    """CHAIN over the Ok payload of the Result that fn returns (lib_c10.ok_sources): how the error side is built
+    (`.map_err(closure)`, a match arm, a helper) is not this rule's business."""
+    srcs = ok_sources(fn)
+    if not srcs:
+        ctx.lost(R, "%s: the Ok value returned by %s" % (key, fn.id))
+    for op in srcs:
+        _chain(ctx, R, key, fn, op, allow, site, **kw)
+
+
+def _wraps(ctx, R, key, ds, b, adt_rx, allow, must_call, consts_ok=False):
+    """Every literal of the extractor type wraps the decoder's output unmodified.  The literal is either written in
+    the body b itself (`let v = decode(..)?; Ok(T { inner: v })`) or in a closure mapped over the decoder's Result
+    (`decode(..).map(|v| T { inner: v })`): then the closure must wrap its own argument and the receiver of `map`
+    is the value that is chained to the decoder."""
+    n = 0
+    for ab, i, st in b.aggregates(adt_rx):
+        if ab in b.reachable(0):
+            n += 1
+            _chain(ctx, R, key, b, st["rv"]["ops"][0], allow, (b, ab), must_call=must_call, consts_ok=consts_ok)
+    for h in ds.children(b):
+        for ab, i, st in h.aggregates(adt_rx):
+            if ab not in h.reachable(0):
+                continue
+            n += 1
+            maps = [(bb, t) for bb, t in b.live_calls(r"(Result::<T, E>|Option::<T>)::map$") if any(g is h for g, _ in closure_args_of_call(b, t))]
+            sl = h.slice(st["rv"]["ops"][0])
+            inner = len(maps) == 1 and sl.params() == [2] and not sl.callees and not _consts(sl) and not [a for a in sl.atoms if a[0] in ("binop", "unop")]
+            pre = (inner, "literal in a closure given to %d map call(s), wrapping its own argument unchanged: %s" % (len(maps), inner))
+            if len(maps) != 1:
+                ctx.check(R, key, False, pre[1], (h, ab))
+            for bb, t in maps:
+                _chain(ctx, R, key, b, t["args"][0], allow, (b, bb), must_call=must_call, consts_ok=consts_ok, pre=pre)
+    if n == 0:
+        ctx.lost(R, "%s: no literal of the extractor type under %s" % (key, b.id))
 
 
 def _from_upvar_param(ds, g, want_params, field=None):
@@ -109,19 +150,15 @@ def r1_decoder_inputs(ctx):
         for bb, t in cs:
             _chain(ctx, R, "path:decoder-input-is-route-variables", b, t["args"][0], ASYNC, (b, bb),
                    origin=_from_upvar_param(ds, b, _names(top).get("rqctx", [1]), field=("endpoint", "variables")))
-        for ab, i, st in b.aggregates(r"^extractor::path::Path$"):
-            _chain(ctx, R, "path:extractor-wraps-decoder-output", b, st["rv"]["ops"][0], ASYNC + [r"^http_util::http_extract_path_params$"], (b, ab),
-                   must_call=r"^http_util::http_extract_path_params$", consts_ok=False)
+        _wraps(ctx, R, "path:extractor-wraps-decoder-output", ds, b, r"^extractor::path::Path$", ASYNC + [r"^http_util::http_extract_path_params$"], r"^http_util::http_extract_path_params$")
     hp = ctx.need_fn(ds, R, r"^http_util::http_extract_path_params$")
     fm = hp.live_calls(r"^from_map::from_map$")
     for bb, t in fm:
         _chain(ctx, R, "path:from_map-input-is-the-variable-set", hp, t["args"][0], ASYNC, (hp, bb), origin=_from_params([1]))
-    _chain(ctx, R, "path:result-is-from_map-output", hp, {"l": 0, "p": []}, ASYNC + [r"^from_map::from_map$", r"Result::<T, E>::map_err$"], hp,
-           must_call=r"^from_map::from_map$", origin=_from_params([1]))
+    _ok_chain(ctx, R, "path:result-is-from_map-output", hp, ASYNC + [r"^from_map::from_map$"], hp, must_call=r"^from_map::from_map$", origin=_from_params([1]))
     fmf = ctx.need_fn(ds, R, r"^from_map::from_map$")
-    _chain(ctx, R, "path:from_map-deserialises-the-map", fmf, {"l": 0, "p": []},
-           ASYNC + [r"MapDeserializer::<'de, Z>::from_map$", r"_serde::Deserialize::deserialize$", r"Result::<T, E>::map_err$"], fmf,
-           must_call=r"_serde::Deserialize::deserialize$", origin=_from_params([1]))
+    _ok_chain(ctx, R, "path:from_map-deserialises-the-map", fmf, ASYNC + [r"MapDeserializer::<'de, Z>::from_map$", r"_serde::Deserialize::deserialize$"], fmf,
+              must_call=r"_serde::Deserialize::deserialize$", origin=_from_params([1]))
     ctor = ctx.need_fn(ds, R, r"^from_map::MapDeserializer::<'de, Z>::from_map$")
     _chain(ctx, R, "path:deserializer-holds-the-map", ctor, {"l": 0, "p": []}, ASYNC, ctor, origin=_from_params([1]))
     # ---- query
@@ -135,8 +172,7 @@ def r1_decoder_inputs(ctx):
         ls = lit_strs(sl)
         others = [a for a in _consts(sl) if not (a[0] == "lit" and a[1] == '{"str": ""}')]
         ctx.check(R, "query:absent-query-is-empty-string", ls <= {""} and not others, "string constants on the chain: %s (only the empty default is allowed)" % sorted(ls), (lq, bb))
-    for ab, i, st in lq.aggregates(r"^extractor::query::Query$"):
-        _chain(ctx, R, "query:extractor-wraps-decoder-output", lq, st["rv"]["ops"][0], qallow + [r"serde_urlencoded::from_str$"], (lq, ab), must_call=r"serde_urlencoded::from_str$", consts_ok=True)
+    _wraps(ctx, R, "query:extractor-wraps-decoder-output", ds, lq, r"^extractor::query::Query$", qallow + [r"serde_urlencoded::from_str$"], r"serde_urlencoded::from_str$", consts_ok=True)
     qimpl = [f for i, f in impl_fns(ds, r"^extractor::common::SharedExtractor$", "from_request") if "query::Query" in i["self"]]
     if len(qimpl) != 1:
         ctx.lost(R, "SharedExtractor::from_request impl for Query")
@@ -156,10 +192,9 @@ def r1_decoder_inputs(ctx):
         for bb, t in ps:
             _chain(ctx, R, "body:%s:parser-input-is-the-body-bytes" % label, b, t["args"][0], BODY_READ, (b, bb), must_call=r"StreamingBody::into_bytes_mut$",
                    origin=_from_upvar_param(ds, b, nm.get("rqctx", [1]) + nm.get("request", [2])))
-    for ab, i, st in b.aggregates(r"^extractor::body::TypedBody$"):
-        _chain(ctx, R, "body:extractor-wraps-decoder-output", b, st["rv"]["ops"][0],
-               BODY_READ + [rx for _, rx in parsers] + [r"serde_path_to_error::deserialize$", r"serde_urlencoded::Deserializer::<'de>::new$", r"Result::<T, E>::map_err$"],
-               (b, ab), must_call=r"serde_path_to_error::deserialize$|serde_json::from_slice$|serde_urlencoded::from_bytes$")
+    _wraps(ctx, R, "body:extractor-wraps-decoder-output", ds, b, r"^extractor::body::TypedBody$",
+           BODY_READ + [rx for _, rx in parsers] + [r"serde_path_to_error::deserialize$", r"serde_urlencoded::Deserializer::<'de>::new$", r"Result::<T, E>::map_err$"],
+           r"serde_path_to_error::deserialize$|serde_json::from_slice$|serde_urlencoded::from_bytes$")
     # the body read itself: into_parts of this request, body part handed to StreamingBody::new
     for bb, t in b.live_calls(r"StreamingBody::new$"):
         _chain(ctx, R, "body:reads-this-request's-body", b, t["args"][0], ASYNC + [r"http::Request::<T>::into_parts$", r"http::Request::<T>::into_body$"], (b, bb),
